@@ -1,4 +1,4 @@
 From Coq Require Extraction.
 From Coq Require Import ExtrOcamlBasic.
 From RM Require Import C15.Driver.
-Extraction "c15_model.ml" run_report render_compact render_pretty parse_soft pretty_ok reparse_ok mk_width flip_confidence_bits flip_confidence_text real_confidence_ok wf_ok regs_ok real_conforms real_widths real_consistent real_offsets real_fn_offsets mods_ok keys_ok real_sorted encode_utf8 decode_utf8.
+Extraction "c15_model.ml" run_report render_compact render_pretty parse_soft pretty_ok reparse_ok mk_width flip_confidence_bits flip_confidence_text real_confidence_ok mk_version wf_ok regs_ok real_conforms real_widths real_consistent real_offsets real_fn_offsets mods_ok keys_ok real_sorted encode_utf8 decode_utf8.
